@@ -402,7 +402,7 @@ def sub_init(init, Dp=None, p=None, zeroth=False):
         if o["k"] != "U":
             out.append(dict(o)); continue
         shape = list(o["shape"])
-        vals = numpy.array([to_frac(v) for v in o["vals"]], dtype=object).reshape(shape)
+        vals = numpy.arange(len(o["vals"])).reshape(shape)          # positions (the values stay as the spec printed them: real or complex)
         if Dp is not None:
             vals = vals[:Dp]
         if p is not None:
@@ -412,11 +412,11 @@ def sub_init(init, Dp=None, p=None, zeroth=False):
             k = "Z"
         else:
             k = "U"
-        if not isinstance(vals, numpy.ndarray):
-            vals = numpy.array(vals, dtype=object)
-        flat = list(vals.reshape(-1))
-        out.append({"k": k, "buf": o["buf"], "shape": list(vals.shape), "cells": list(range(1, len(flat) + 1)),
-                    "vals": [[f.numerator, f.denominator] for f in flat]})
+        vals = numpy.asarray(vals)
+        flat = [int(i) for i in vals.reshape(-1)]
+        d = dict(o)
+        d.update({"k": k, "shape": list(vals.shape), "cells": list(range(1, len(flat) + 1)), "vals": [o["vals"][i] for i in flat]})
+        out.append(d)
     return out
 
 
@@ -540,8 +540,9 @@ def relational_check(rep, configs, mode, limit=None):
         name = c.pop("name")
         sim = c.pop("simulate", None); depth = c.pop("depth", None)
         kw = dict(simulate=sim, depth=depth, seed=rep.seed) if sim else {}
-        res = run_tlc("MC_UTPM", cfg(**c), workers=16, timeout=1500, **kw)
-        tlc_ok(res, "MC_UTPM " + name)
+        module = c.pop("module", "MC_UTPM")
+        res = run_tlc(module, cfg(**c), workers=16, timeout=1500, **kw)
+        tlc_ok(res, module + " " + name)
         rep.add_tlc(res, name)
         n = relational(rep, algopy, res.records, name, mode, limit=limit, seed=rep.seed)
         big = max(res.records, key=lambda r: len(r["h"]))
